@@ -179,8 +179,9 @@ def install(I, mkcls, meth):
 
     def _io_fault(i, s, what):
         """optional fault injection: any I/O call may raise OSError (enabled per unit)"""
-        if i.st.ghost.get("io_faults"):
+        if i.st.ghost.get("io_faults") and not i.st.ghost.get("fault_done"):
             if i.st.branch(i.st.fresh(f"fault_{what}", z3.BoolSort()), f"io-fault:{what}"):
+                i.st.ghost["fault_done"] = True       # single-fault enumeration: one injected fault per path
                 i.st.event("io-fault", what)
                 i.raise_py("OSError", f"injected fault in {what}")
 
@@ -301,8 +302,9 @@ def install(I, mkcls, meth):
             cell.fields["content"] = b""
         else:
             raise Unsupported(f"open mode {mode!r}")
-        if st.ghost.get("io_faults"):
+        if st.ghost.get("io_faults") and not st.ghost.get("fault_done"):
             if st.branch(st.fresh("fault_open", z3.BoolSort()), "io-fault:open"):
+                st.ghost["fault_done"] = True
                 i.raise_py("OSError", "injected fault in open")
         s = Obj(BS, {"file": cell, "pos": 0, "closed": False, "r_ok": True,
                      "w_ok": mode != "rb", "mode": mode}, tag="binstream")
